@@ -19,3 +19,5 @@ import Hls.Props.C20Text
 #print axioms Hls.C20T.builder_text_agree_text
 #print axioms Hls.C20T.pushes_text_agree
 #print axioms Hls.C20T.accepted_text_builds
+#print axioms Hls.C20T.btreeInsert_overwrite
+#print axioms Hls.C20T.client_attribute_last_wins
